@@ -252,6 +252,23 @@ class FermionicArray(AbelianArray):
             other, fn, inplace=True, **kwargs
         )
 
+    def _do_reduction(self, fn):
+        """Need to sync phases before reducing over block values."""
+        return super(FermionicArray, self.phase_sync())._do_reduction(fn)
+
+    def _do_unary_op(self, fn, inplace=False):
+        """Need to sync phases before non-linear elementwise operations."""
+        new = self.phase_sync(inplace=inplace)
+        return super(FermionicArray, new)._do_unary_op(fn, inplace=True)
+
+    def clip(self, a_min, a_max):
+        """Clip the values in the array."""
+        return super(FermionicArray, self.phase_sync()).clip(a_min, a_max)
+
+    def item(self):
+        """Convert the block array to a scalar if it is a scalar block array."""
+        return super(FermionicArray, self.phase_sync()).item()
+
     def _map_blocks(self, fn_block=None, fn_sector=None):
         super()._map_blocks(fn_block, fn_sector)
         if fn_sector is not None:
